@@ -381,19 +381,25 @@ def rule_literal(ctx, px):
         for st in path.stmts:
             if isinstance(st, ast.Assign) and len(st.targets) == 1 and isinstance(st.targets[0], ast.Name):
                 env[st.targets[0].id] = symstr._Bind({k: v for k, v in env.items() if k not in params}).visit(__import__("copy").deepcopy(st.value))
+            elif isinstance(st, ast.Assign) and len(st.targets) == 1 and isinstance(st.targets[0], ast.Tuple) and isinstance(st.value, ast.Tuple) \
+                    and len(st.targets[0].elts) == len(st.value.elts):
+                for t_, v_ in zip(st.targets[0].elts, st.value.elts):
+                    if isinstance(t_, ast.Name):
+                        env[t_.id] = v_
             elif isinstance(st, ast.AugAssign) and isinstance(st.target, ast.Name) and isinstance(st.op, ast.Add) and st.target.id in env:
                 env[st.target.id] = ast.BinOp(left=env[st.target.id], op=ast.Add(), right=st.value)     # s += x  on this path
         alts = symstr.sym(px, f, r.value, _bound={k: v for k, v in env.items() if k not in params})
         alts = [(c, p_) for c, p_ in alts if not any((e == "False" and pol) or (e == "True" and not pol) for e, pol in c)]
         rets.append((kind, terms, [symstr.render(p_) for _c, p_ in alts], [c for c, _p in alts], r))
-    kinds = {k for k, *_ in rets}
+        rets[-1] = rets[-1] + ({k: v for k, v in env.items() if k not in params},)
+    kinds = {x[0] for x in rets}
     ok = {"BooleanType", "IntegerType", "FloatType"} <= kinds
     ctx.ob(R, cm.rel, f"{f.short} :: boolean, integer and float types are rendered", ok, f"{sorted(k for k in kinds if k)}", f.node.lineno)
     closed = isinstance(f.node.body[-1], ast.If) and any(isinstance(x, ast.Raise) for x in ast.walk(f.node.body[-1])) or isinstance(f.node.body[-1], ast.Raise)
     ctx.ob(R, cm.rel, f"{f.short} :: any other type fails generation", closed, "", f.node.lineno)
     SUFFIX = f"{{'U' * isinstance({ty}, pydsdl.UnsignedIntegerType)}}{{'L' * ({ty}.bit_length > 16)}}{{'L' * ({ty}.bit_length > 32)}}"
     n_min = 0
-    for kind, terms, shown, conds, r in rets:
+    for kind, terms, shown, conds, r, env_r in rets:
         if kind == "BooleanType":
             ok = sorted(shown) == sorted(["{language.valuetoken_true}", "{language.valuetoken_false}"]) or \
                 shown == [f"{{language.valuetoken_true if {val} else language.valuetoken_false}}"]
@@ -455,12 +461,31 @@ def rule_literal(ctx, px):
             ctx.ob(R, cm.rel, f"{f.short} {label}", good and bool(shown),
                    "" if good else why + ": the literal's type is narrower than the constant, or signedness is lost", r.lineno)
         elif kind == "FloatType":
-            src = " ".join(shown)
-            whole = any(pol and e.replace(" ", "") == f"{val}.denominator==1" for e, pol in terms)
-            uses = f"{val}.numerator" in src and (whole or f"{val}.denominator" in src)
-            cast = "filter_type_from_primitive(language, " + ty + ")" in src or "cast_format.format(" in src
-            ctx.ob(R, cm.rel, f"{f.short} [float{', integral' if whole else ''}] :: exact numerator{'' if whole else ' / denominator'} of the rational, cast to the storage type", uses and cast,
-                   f"{shown}", r.lineno)
+            # the value handed to the cast: "<numerator>.0" for integral rationals, "(<numerator>.0 / <denominator>.0)" otherwise
+            call = symstr._Bind(env_r).visit(__import__("copy").deepcopy(r.value)) if env_r else r.value
+            kws = {k.arg: k.value for k in call.keywords} if isinstance(call, ast.Call) else {}
+            good, why = False, f"{shown}"
+            if isinstance(call, ast.Call) and isinstance(call.func, ast.Attribute) and call.func.attr == "format" and "value" in kws and "type" in kws:
+                ty_ok = ast.unparse(kws["type"]).replace(" ", "") == f"filter_type_from_primitive(language,{ty})"
+                exprs = symstr.sym(px, f, kws["value"], _bound=env_r)
+                good = ty_ok and bool(exprs)
+                for c_, p_ in exprs:
+                    sh = symstr.render(p_)
+                    facts = terms + list(c_)
+                    den1 = (f"{val}.denominator==1", f"1=={val}.denominator")
+                    den_not1 = (f"{val}.denominator!=1", f"1!={val}.denominator")
+                    whole = any((e.replace(" ", "") in den1 and pol) or (e.replace(" ", "") in den_not1 and not pol) for e, pol in facts)
+                    frac = any((e.replace(" ", "") in den1 and not pol) or (e.replace(" ", "") in den_not1 and pol) for e, pol in facts)
+                    if whole and sh == f"{{{val}.numerator}}.0":
+                        continue
+                    if frac and sh == f"({{{val}.numerator}}.0 / {{{val}.denominator}}.0)":
+                        continue
+                    good, why = False, f"the cast operand is `{sh}` under {facts}"
+                    break
+                if not ty_ok:
+                    why = f"cast to `{ast.unparse(kws['type'])}`"
+            ctx.ob(R, cm.rel, f"{f.short} [float] :: exact numerator (/ denominator) of the rational as double literals, cast to the storage type `{r.lineno}`".replace(f" `{r.lineno}`", ""),
+                   good, "" if good else why, r.lineno)
     ctx.ob(R, cm.rel, f"{f.short} [int] :: -2**63 has its own spelling (its magnitude fits no signed literal: the compiler would make it unsigned and positive)", n_min >= 1,
            "" if n_min else "`-9223372036854775808LL` is read as the negation of an unsigned literal: the constant is positive and every use is diagnosed", f.node.lineno)
     # delegation
